@@ -8,6 +8,8 @@ import NflowsModel.Lemmas.RQWhole
 import NflowsModel.Lemmas.RQInverseWhole
 import NflowsModel.Lemmas.CubicWhole
 import NflowsModel.Lemmas.QuadWhole
+import NflowsModel.Lemmas.TailsWhole
+import NflowsModel.Lemmas.QuadInverseWhole
 /-!
 # C09 — spline transformers are increasing bijections of their box, identity in the tails
 
@@ -253,5 +255,61 @@ theorem quad_program_normalised (e : Float → ℝ) (c : QCfg) (uw uh : List ℝ
 
 example : QuadWhole.QuadValid QuadWhole.eNV QuadWhole.cNV [0] [0, 0] := QuadWhole.valid_example
 example : QuadWhole.QuadValidT QuadWhole.eT QuadWhole.cNV [0, 0] [0] := QuadWhole.valid_example_T
+
+/-! ## the UNCONSTRAINED (linear tails) programs on the whole real line -/
+
+/-- **End to end, RQ with linear tails, forward, on all of ℝ**: the executed `rqSplineTails … false` never fails, is the
+    identity with zero log-det outside `[-B, B]`, is continuous at the junctions, strictly increasing on ℝ, a bijection of ℝ onto
+    ℝ that maps `[-B, B]` onto itself. -/
+theorem rq_tails_program_whole_line (e : Float → ℝ) (tb minW minH minD beta : Float) (uw uh ud : List ℝ)
+    (hv : TailsWhole.RQTailsValid e tb minW minH minD beta uw uh ud) :
+    (∀ x, rqSplineTails (NF.realX e) tb minW minH minD beta uw uh ud false x
+        = .ok (TailsWhole.valT e tb minW minH minD beta uw uh ud x, TailsWhole.ldT e tb minW minH minD beta uw uh ud x)) ∧
+    (∀ x, x < -e tb ∨ e tb < x →
+        TailsWhole.valT e tb minW minH minD beta uw uh ud x = x ∧ TailsWhole.ldT e tb minW minH minD beta uw uh ud x = 0) ∧
+    StrictMono (TailsWhole.valT e tb minW minH minD beta uw uh ud) ∧
+    Continuous (TailsWhole.valT e tb minW minH minD beta uw uh ud) ∧
+    Function.Bijective (TailsWhole.valT e tb minW minH minD beta uw uh ud) ∧
+    Set.BijOn (TailsWhole.valT e tb minW minH minD beta uw uh ud) (Set.Icc (-e tb) (e tb)) (Set.Icc (-e tb) (e tb)) :=
+  ⟨TailsWhole.tails_total hv, fun x h => TailsWhole.valT_outside x h, TailsWhole.valT_strictMono hv, TailsWhole.valT_continuous hv,
+   TailsWhole.valT_bijective hv, TailsWhole.valT_bijOn_box hv⟩
+
+example : TailsWhole.RQTailsValid TailsWhole.eW 1.0 0.0 0.0 0.0 1.0 [0] [0] [] := TailsWhole.rq_valid_example
+
+/-- the same for the quadratic family in its tails shape (`K ≥ 2`) through the generic `tailsWrap` (continuity only at the
+    junction: the padding constant does not give derivative 1 there, `TailsWhole.quad_tails_not_differentiable_left`) … -/
+theorem quad_tails_program_whole_line (e : Float → ℝ) (tb minW minH : Float) (uw uh : List ℝ)
+    (hv : QuadWhole.QuadValidT e (TailsWhole.qcfgT tb minW minH) uw uh) (hneg : e (-tb) = - e tb) :
+    (∀ x, tailsWrap (NF.realX e) tb x (fun b => TailsWhole.quadP e minW minH uw uh b x)
+        = .ok (TailsWhole.wrapVal e tb (TailsWhole.quadP e minW minH uw uh) x, TailsWhole.wrapLd e tb (TailsWhole.quadP e minW minH uw uh) x)) ∧
+    StrictMono (TailsWhole.wrapVal e tb (TailsWhole.quadP e minW minH uw uh)) ∧
+    Continuous (TailsWhole.wrapVal e tb (TailsWhole.quadP e minW minH uw uh)) ∧
+    Function.Bijective (TailsWhole.wrapVal e tb (TailsWhole.quadP e minW minH uw uh)) ∧
+    Set.BijOn (TailsWhole.wrapVal e tb (TailsWhole.quadP e minW minH uw uh)) (Set.Icc (-e tb) (e tb)) (Set.Icc (-e tb) (e tb)) ∧
+    TailsWhole.wrapVal e tb (TailsWhole.quadP e minW minH uw uh) (-e tb) = -e tb ∧
+    TailsWhole.wrapVal e tb (TailsWhole.quadP e minW minH uw uh) (e tb) = e tb ∧
+    (∀ x, x < -e tb ∨ e tb < x → TailsWhole.wrapVal e tb (TailsWhole.quadP e minW minH uw uh) x = x ∧
+        TailsWhole.wrapLd e tb (TailsWhole.quadP e minW minH uw uh) x = 0) :=
+  TailsWhole.quad_tails_whole hv hneg
+
+/-- … and for the cubic family -/
+theorem cubic_tails_program_whole_line (e : Float → ℝ) (tb minW minH eps thr : Float) (uw uh : List ℝ) (udl udr : ℝ)
+    (hv : CubicWhole.CubicValid e (TailsWhole.ccfgT tb minW minH eps thr) uw uh) (hneg : e (-tb) = - e tb) :
+    TailsWhole.cubicValT e tb minW minH eps thr uw uh udl udr (-e tb) = -e tb ∧
+    TailsWhole.cubicValT e tb minW minH eps thr uw uh udl udr (e tb) = e tb ∧
+    StrictMono (TailsWhole.cubicValT e tb minW minH eps thr uw uh udl udr) ∧
+    Continuous (TailsWhole.cubicValT e tb minW minH eps thr uw uh udl udr) ∧
+    Function.Bijective (TailsWhole.cubicValT e tb minW minH eps thr uw uh udl udr) ∧
+    Set.BijOn (TailsWhole.cubicValT e tb minW minH eps thr uw uh udl udr) (Set.Icc (-e tb) (e tb)) (Set.Icc (-e tb) (e tb)) :=
+  TailsWhole.cubic_tails_whole hv hneg
+
+/-- **End to end, quadratic inverse** (both shapes of `uh`): a strictly increasing bijection of `[bottom, top]` onto `[left, right]` -/
+theorem quad_program_inverse_bijection (e : Float → ℝ) (c : QCfg) (uw uh : List ℝ)
+    (hv : QuadWhole.QuadValid e c uw uh ∨ QuadWhole.QuadValidT e c uw uh) :
+    StrictMonoOn (QuadInverseWhole.inv e c uw uh) (Set.Icc (e c.box.bottom) (e c.box.top)) ∧
+    Set.BijOn (QuadInverseWhole.inv e c uw uh) (Set.Icc (e c.box.bottom) (e c.box.top)) (Set.Icc (e c.box.left) (e c.box.right)) := by
+  rcases hv with hv | hv
+  · exact ⟨QuadInverseWhole.inv_strictMonoOn hv, QuadInverseWhole.inv_bijOn hv⟩
+  · exact ⟨QuadInverseWhole.inv_strictMonoOn_T hv, QuadInverseWhole.inv_bijOn_T hv⟩
 
 end Properties.C09
